@@ -38,6 +38,43 @@ def history_loops(fi):
     return out
 
 
+HOLDER_CLASSES = ("Indicator", "CandleManager", "Hexital")
+HOLDER_ATTRS = ("candles", "_candles", "sub_indicators", "managed_indicators", "_indicators", "candle_manager", "_candle_map")
+
+
+def render_sites(repo, fi):
+    """expressions in fi whose text rendering walks a candle history: str()/repr()/format()/f-string/%-format/print/log of an object that holds
+    candle lists (an indicator, a manager, a Hexital, or one of their candle / helper containers).  Renderings inside a `raise` end the operation."""
+    holder_self = fi.cls is not None and any(c.name in HOLDER_CLASSES for c in repo.mro(fi.cls))
+
+    def holder(e):
+        if isinstance(e, ast.Name):
+            return (e.id == "self" and holder_self) or e.id in ("candles", "candles_")
+        if isinstance(e, ast.Attribute) and isinstance(e.value, ast.Name) and e.value.id == "self" and holder_self:
+            return e.attr in HOLDER_ATTRS
+        return False
+
+    in_raise = set()
+    for n in ast.walk(fi.node):
+        if isinstance(n, ast.Raise):
+            in_raise |= {id(x) for x in ast.walk(n)}
+    out = []
+    for n in ast.walk(fi.node):
+        if id(n) in in_raise:
+            continue
+        if isinstance(n, ast.FormattedValue) and holder(n.value):
+            out.append(n.value)
+        elif isinstance(n, ast.Call):
+            cn = call_name(n)
+            args = list(n.args) + [k.value for k in n.keywords]
+            if cn in ("str", "repr", "format", "print", "ascii") or (isinstance(n.func, ast.Attribute) and n.func.attr in ("format", "debug", "info", "warning", "error", "warn", "critical", "exception", "pformat", "dumps")):
+                out += [a for a in args if holder(a)]
+        elif isinstance(n, ast.BinOp) and isinstance(n.op, ast.Mod) and isinstance(n.left, (ast.Constant, ast.JoinedStr)) and isinstance(getattr(n.left, "value", ""), str):
+            rs = n.right.elts if isinstance(n.right, ast.Tuple) else [n.right]
+            out += [a for a in rs if holder(a)]
+    return out
+
+
 @register("C07")
 def run(repo, tier) -> Result:
     res = Result("C07", tier)
@@ -107,6 +144,8 @@ def run(repo, tier) -> Result:
         fi = cg.funcs[k]
         if fi.name == "_initialise" or fi.name in ("__init__", "__post_init__"):
             continue  # one-shot construction of helpers (first calculate only)
+        for e in render_sites(repo, fi):
+            res.fail("R-HISTORY", finding("C07", "R-HISTORY", fi, e, f"{fi.qualname} renders `{ast.unparse(e)}` as text on the per-candle calculation path: the text of an indicator / manager includes every helper's candle list, so the work grows with the history"))
         hl = history_loops(fi)
         deep = [c for c in calls_in(fi.node) if call_name(c) in HISTORY_BUILTIN and "candles" in ast.unparse(c)]
         if (hl or deep) and k not in allowed:
